@@ -389,6 +389,52 @@ def r19_8(ctx):
             )
 
 
+def r19_9(ctx):
+    """Arm-exact shape of the refusals and of the loop's control flow in IMAPClient.start: which arm refuses, and that a
+    refusal / a consumed literal goes back to reading instead of falling through to the relay."""
+    from .common import pm_of
+
+    p = ctx.p
+    fi = p.func("server.IMAPClient.start")
+    ctx.analysed(fi)
+    pm = pm_of(p, fi)
+    pm.has("msg = await self.reader.readuntil(self.LINE_TERMINATOR)")
+    pm.has("m = RE_LITERAL_STRING_START.search(...)")
+    pm.has("literal_str_length = int(m.group(1))")
+    checks = [
+        (["if msg:\n    self.ibuffer.append(msg)\n    ..."],
+         "a non-empty line is kept", "the line just read is not appended exactly when it is non-empty: client lines are dropped"),
+        (["if not self.ibuffer:\n    await self.push(...)\n    continue"],
+         "an empty command gets BAD and the loop reads on", "the empty-command refusal fires on the wrong arm or does not go back to reading: an empty buffer is relayed / every command is refused"),
+        (["if literal_str_length > MAX_INPUT_SIZE:\n    ...\n    await self.push(...)\n    ...\n    continue", "if literal_str_length >= MAX_INPUT_SIZE:\n    ...\n    await self.push(...)\n    ...\n    continue"],
+         "an over-limit literal gets BAD and the loop reads on (the literal is not read)", "the over-limit literal refusal fires on the wrong arm, or falls through to reading the literal"),
+        (["if m.group(2):\n    remaining = literal_str_length\n    while remaining > 0:\n        skipped = await self.reader.read(...)\n        if not skipped:\n            break\n        remaining -= len(skipped)"],
+         "the octets of a refused non-synchronising literal are skipped by count (only for `{n+}`)", "the skip of a refused `{n+}` literal's octets is on the wrong arm or no longer counts down by what was read: literal octets are parsed as commands, or the connection hangs waiting for octets a `{n}` client never sends"),
+        (["if self.ibuffer_size > MAX_INPUT_SIZE:\n    ...\n    await self.push(...)\n    ...\n    continue", "if self.ibuffer_size >= MAX_INPUT_SIZE:\n    ...\n    await self.push(...)\n    ...\n    continue"],
+         "an over-limit command gets BAD and is not relayed", "the over-limit command refusal fires on the wrong arm or falls through to the relay"),
+    ]
+    for pats, okmsg, badmsg in checks:
+        if any(pm.has(x) for x in pats):
+            ctx.ok("R19.9", where(fi), okmsg)
+        else:
+            ctx.bad("R19.9", fi.module, fi.qual, pats[0].split("\n")[0], badmsg, fi.node.lineno)
+    # both size tests (after a literal, and before assembling) must be arm-exact
+    sz = [n for n in body_walk(fi.node) if isinstance(n, ast.If) and "ibuffer_size" in norm(n.test) and "MAX_INPUT_SIZE" in norm(n.test)]
+    ctx.floor("R19.9", len(sz), 2, "size tests of the accumulated command")
+    for n in sz:
+        okv = isinstance(n.test, ast.Compare) and isinstance(n.test.ops[0], (ast.Gt, ast.GtE)) and norm(n.test.left) == "self.ibuffer_size" and isinstance(n.body[-1], ast.Continue) and any(call_name(c) == "push" for st in n.body for c in calls_in(st))
+        if okv:
+            ctx.ok("R19.9", where(fi), f"size test @{n.lineno}: refuses above the limit, then reads on", nontrivial=False)
+        else:
+            ctx.bad("R19.9", fi.module, fi.qual, norm(n.test), "a size test of the accumulated command no longer refuses (BAD + continue) exactly above the limit", n.lineno)
+    # after a literal was consumed the loop goes back to reading (the rest of the line follows)
+    mifs = [n for n in body_walk(fi.node) if isinstance(n, ast.If) and norm(n.test) == (pm.name("m") or "m")]
+    if mifs and isinstance(mifs[0].body[-1], ast.Continue):
+        ctx.ok("R19.9", where(fi), "after a literal the loop reads the continuation of the line before anything is relayed")
+    else:
+        ctx.bad("R19.9", fi.module, fi.qual, "if m: ... continue", "after consuming a literal the loop falls through to the relay: a command is passed on before its line is complete", mifs[0].lineno if mifs else fi.node.lineno)
+
+
 def run(ctx):
     ctx.do(r19_8)
     ctx.do(r19_1)
@@ -397,3 +443,4 @@ def run(ctx):
     ctx.do(r19_4)
     ctx.do(r19_5)
     ctx.do(r19_6_7)
+    ctx.do(r19_9)
